@@ -83,12 +83,14 @@ Print Assumptions cssparse_lexer_tok_in_lex.
        EOpen:   (ws? selector-token)+ ws? '{'
        EDecl:   ws? ident ws? ':' (ws? value-token)+ ws? ';'
        EClose:  ws? '}'
+       EComment: ws? comment          EToken: ws? CDO | ws? CDC          (both at the top level only)
    that nest properly (evs_ok: declarations and '}' only inside a ruleset, everything closed at the end; rulesets may
    be nested to any depth), followed by ws?
    (ws: a Whitespace token; selector-/value-token: any token but whitespace, comment, '{', '}', ';', with brackets
    and function parentheses balanced - toks_ok / lv_after; the first token of a top-level selector is none of CDO,
    CDC, at-keyword, custom-property name - sel_first; the first token of a nested selector is an identifier, a hash,
-   ':' or '[' - nest_first; no comments)
+   ':', '[' or a delimiter other than '*' - nest_first; '*' is the IE-hack path of parseDeclarationList, the known
+   finding conservation-iehack, and is the exact exception; no comments inside rulesets)
    yields exactly one unit per event, in order:
    - BeginRuleset with Values() = expected_sel: the selector tokens in order with a single space token exactly where
      the source has whitespace between two tokens neither of which is a combinator  , > + ~  and that are not inside
@@ -98,10 +100,10 @@ Print Assumptions cssparse_lexer_tok_in_lex.
      single space token exactly where the source has whitespace between two value tokens neither of which is one of
      the punctuation bytes  , / : ! =  (whitespace before the first and after the last value token, around ':' and
      ';', '{' and '}' is dropped);
-   - EndRuleset;
+   - EndRuleset; Comment with the comment as data; Token with the CDO / CDC token as data;
    and then the end-of-input report; no parse error is reported.
-   MISSING: at-rules, custom properties, comments, CDO/CDC, nested selectors that start with a delimiter (. & >)
-   (covered by the well-formed-stylesheet oracle only). *)
+   MISSING: at-rules, custom properties, comments inside rulesets (covered by the well-formed-stylesheet oracle
+   only). *)
 Theorem cssparse_wellformed_partial : forall d evs w,
   css_lex d = LexDone (concat (map ev_toks evs) ++ optws w) -> evs_ok 0 evs ->
   exists tr, parse_run (length evs + 1) (new_parser d false) = POk tr /\
